@@ -779,10 +779,10 @@ fn main() {
         }
     }
     // 3. random larger posets
-    let nbig = if args.thorough { 2400 } else { 200 };
+    let nbig = if args.thorough { 1200 } else { 200 };
     for k in 0..nbig {
         let mut r = Rng::for_case(seed ^ 0xB16, k);
-        let hi = if args.thorough && k % 8 == 0 { 400 } else { 60 };
+        let hi = if args.thorough && k % 16 == 0 { 400 } else { 60 };
         let n = r.range(6, hi) as usize;
         let (edges, shape) = match k % 4 {
             0 => (gen_tree(n, &mut r), "tree"),
